@@ -98,23 +98,50 @@ def run(ctx):
             ok = o[0] == "agg" and o[1] == "tuple" and o[2][0][0] == "call" and o[2][0][1] == "h3::proto::stream::StreamType::grease" and \
                 o[2][1][0] == "agg" and o[2][1][1] == FR + "::Grease"
             ctx.check(ok, "C14-a", gs.key, "grease stream = (StreamType::grease(), Frame::Grease)", "grease stream sends %s" % fl.fmt(o), "")
+        # the grease stream's little state machine moves on only when the transport answered the step's poll with Ready:
+        # finishing the stream while its bytes are still pending truncates it (a cut-off stream type varint + FIN)
+        STEP = ("poll_open_send", "poll_ready", "poll_finish")
+        n_adv = 0
+        for p in [p for p in ru.all_paths(ctx, "C14-a", gs, max_visits=1) if p.end == "return"]:
+            pend = {}          # bb of a step's poll call -> outcome the path established for it
+            for t in p.tests:
+                if t[3][0] == "discr" and t[3][1][0] == "call" and pa.short(t[3][1][1]) in STEP:
+                    pend[t[3][1][3]] = t[2]
+            last = None
+            for e in p.events:
+                if e[0] == "call" and e[2].cname in STEP:
+                    last = e
+                elif e[0] == "store" and pa.vfmt(e[4]).endswith(".grease_step") and last is not None:
+                    n_adv += 1
+                    out_ = pend.get(last[1])
+                    ctx.check(out_ == "Ready", "C14-a", gs.key, "grease stream step completed only after %s answered Ready" % last[2].cname,
+                              "the grease stream's state moves on after %s on a path where that poll's result was %s: the step's bytes may still "
+                              "be unwritten when the next step (finally poll_finish) runs, so the stream goes out truncated"
+                              % (last[2].cname, out_ or "not examined"), "", None, p.describe())
+                    last = None
+        ctx.floor("C14-a", "grease stream state advances examined", n_adv, 3)
     # every WriteBuf is built empty, keeps the frame it was given and encodes the header exactly once
     want_calls = {"h3::proto::stream::StreamType": ["encode_stream_type"], "h3::stream::UniStreamHeader": ["encode_value"], "h3::stream::BidiStreamHeader": ["encode_value"],
                   "h3::proto::frame::Frame<B>": ["encode_frame_header"], "(h3::proto::stream::StreamType, h3::proto::frame::Frame<B>)": ["encode_value", "encode_frame_header"]}
-    for wbf in prog.find(r"^<h3::stream::WriteBuf as core::convert::From<.*>>::from$"):
+    wbfs = prog.find(r"^<h3::stream::WriteBuf as core::convert::From<.*>>::from$")
+    ctx.floor("C14-a", "From<..> for WriteBuf impls", len(wbfs), 5)
+    for wbf in wbfs:
         src = wbf.id["trait_args"][0] if wbf.id.get("trait_args") else "?"
-        f = fl.Flow(wbf, prog)
-        ags = ru.aggregates(wbf, "h3::stream::WriteBuf")
-        calls_ = [t.ckey.rsplit("::", 1)[-1] for bb, t in wbf.all_terms() if t.t == "call" and (t.ckey or "").startswith("h3::stream::WriteBuf::")]
-        ok = len(ags) == 1 and calls_ == want_calls.get(src)
-        if ok:
-            s_ = ags[0][1]
-            fr = f.origin(ru.field_op(s_, "frame"))
-            has_frame = "Frame<B>" in src
-            ok = ru.const_int(f.origin(ru.field_op(s_, "len"))) == 0 and ru.const_int(f.origin(ru.field_op(s_, "pos"))) == 0 and \
-                ((fr[0] == "agg" and fr[1].endswith("::Some") and fr[2][0][0] == "param") if has_frame else (fr[0] == "agg" and fr[1].endswith("::None")))
-        ctx.check(ok, "C14-a", wbf.key, "WriteBuf from %s: empty cursor, header encoded once (%s), frame kept" % (re.sub(r"[a-z0-9_]+::", "", src), "+".join(want_calls.get(src, ["?"]))),
-                  "WriteBuf::from(%s) builds %s and calls %s" % (src, [(n, fl.fmt(f.origin(ru.field_op(s_[1], n)))[:30]) for s_ in ags for n in ("len", "pos", "frame")], calls_), "")
+        title = "WriteBuf from %s: empty cursor, header encoded once (%s), frame kept" % (re.sub(r"[a-z0-9_]+::", "", src), "+".join(want_calls.get(src, ["?"])))
+        ps = [p for p in ru.all_paths(ctx, "C14-a", wbf, max_visits=1) if p.end == "return"]
+        ctx.floor("C14-a", "returning paths of %s" % wbf.key, len(ps), 1)
+        for p in ps:
+            calls_ = [e[2].cname for e in p.calls() if (e[2].ckey or "").startswith("h3::stream::WriteBuf::") and e[2].cname.startswith("encode_")]
+            r = p.ret
+            ok = r is not None and r[0] == "agg" and r[1] == "h3::stream::WriteBuf" and calls_ == want_calls.get(src)
+            shown = pa.vfmt(r)[:80] if r is not None else "?"
+            if ok:
+                names = [f_["name"] for f_ in prog.adts[r[1]]["variants"][0]["fields"]]
+                fld = dict(zip(names, r[3]))
+                fr = fld.get("frame")
+                want_fr = ("Some(param_1)", "Some(param_1.1)") if "Frame<B>" in src else ("None()",)
+                ok = expr.fold(fld.get("len"), consts) == 0 and expr.fold(fld.get("pos"), consts) == 0 and fr is not None and pa.vfmt(fr) in want_fr
+            ctx.check(ok, "C14-a", wbf.key, title, "WriteBuf::from(%s) returns %s after calling %s" % (src, shown, calls_), "", None, p.describe())
     # frames never constructed on a send path
     for var in ("Settings", "PushPromise", "CancelPush", "MaxPushId", "WebTransportStream"):
         where = sorted({b.key for b in prog.bodies for bb, s in ru.aggregates(b, FR, var)})
@@ -175,7 +202,13 @@ def run(ctx):
                 bl = parse_bytes_literal(lit[0])
                 litlen = len(bl) if bl is not None else litlen
             ok = len(ln) == 1 and litlen is not None and ln[0] == litlen and any(c == "grease" for c, _ in cl)
-            ctx.check(ok, "C14-b", fe.key, "grease frame: declared length = literal payload length (%s)" % litlen,
+            # or: the declared length is len() of the very value that is written (a named constant payload)
+            wv = [unc(args[1]) for c, args in cl if c == "write_var"]
+            ps_ = [unc(args[1]) for c, args in cl if c == "put_slice"]
+            if not ok and len(wv) == 1 and len(ps_) == 1 and wv[0][0] == "call" and pa.short(wv[0][1]) == "len" and wv[0][2] and unc(wv[0][2][0]) == ps_[0]:
+                ok = any(c == "grease" for c, _ in cl)
+                litlen = "len() of the payload constant"
+            ctx.check(ok, "C14-b", fe.key, "grease frame: declared length = literal payload length (%s)" % (litlen if ok else "?"),
                       "grease frame declares length %s but writes %s" % (ln, lit), "")
         else:
             ctx.missing("C14-b", "Grease arm of Frame::encode")
